@@ -472,7 +472,7 @@ def _jobs_for(prop, tier):
     if prop == 'C05':
         return jobs_c05(tier) + [j for j in jobs_option_below(tier) if j[1][3] in ('num', 'localindex')] + jobs_flatten(tier) + jobs_axis0(tier, 'localindex') + jobs_record_below(tier, ('num', 'localindex')) + jobs_axis_through_record(tier, ('num', 'localindex')) + [(h_union_flatten, (), 1800), (h_union_flatten_mixed, (False,), 1800), (h_union_flatten_mixed, (True,), 1800)]
     if prop == 'C09':
-        return jobs_c09(tier) + [j for j in jobs_option_below(tier) if j[1][3] in ('rpad', 'rpad_and_clip')] + jobs_simplify(tier) + jobs_fillna(tier) + jobs_bytemask(tier) + jobs_record_below(tier, ('rpad', 'rpad_and_clip')) + jobs_axis_through_record(tier, ('rpad', 'rpad_and_clip'))
+        return jobs_c09(tier) + [j for j in jobs_option_below(tier) if j[1][3] in ('rpad', 'rpad_and_clip')] + jobs_simplify(tier) + jobs_fillna(tier) + jobs_bytemask(tier) + jobs_record_below(tier, ('rpad', 'rpad_and_clip')) + jobs_axis_through_record(tier, ('rpad', 'rpad_and_clip')) + [j for j in jobs_c02(tier) if j[1][0] in ('IndexedOptionArray64', 'ByteMaskedArray', 'BitMaskedArray', 'UnmaskedArray')]
     if prop == 'C11':
         return jobs_simplify(tier) + jobs_validity_params(tier)
     if prop == 'C07':
